@@ -1699,6 +1699,24 @@ impl<'bump> String<'bump> {
             Unbounded => {}
         };
 
+        // Reserve the room the new text needs before any byte is written: if the
+        // arena refuses it, the string is still untouched. Growing inside the
+        // splice instead would unwind with part of a multi-byte character
+        // already in place.
+        let start = match range.start_bound() {
+            Included(&n) => n,
+            Excluded(&n) => n + 1,
+            Unbounded => 0,
+        };
+        let end = match range.end_bound() {
+            Included(&n) => n + 1,
+            Excluded(&n) => n,
+            Unbounded => self.len(),
+        };
+        if let Some(removed) = end.checked_sub(start) {
+            self.vec.reserve(replace_with.len().saturating_sub(removed));
+        }
+
         unsafe { self.as_mut_vec() }.splice(range, replace_with.bytes());
     }
 }
